@@ -260,6 +260,23 @@ pub fn decode(s: &mut Src) -> Case {
         input.push_str(&simd_text(s));
     }
     let _ = ghtml::TOK_FRAGMENTS;
+    // U+FEFF right after a tag (anywhere in the stream, in particular where the parser resumes
+    // after a suspension): must never be dropped
+    for _ in 0..s.below(3) {
+        let gts: Vec<usize> = input.char_indices().filter(|(_, c)| *c == '>').map(|(i, _)| i + 1).collect();
+        if gts.is_empty() {
+            break;
+        }
+        let at = gts[s.below(gts.len())];
+        input.insert(at, '\u{feff}');
+    }
+    if s.chance(40) {
+        // declarations that suspend the parser, followed by U+FEFF
+        let m = *s.pick(&["<meta charset=utf-8>\u{feff}", "<meta http-equiv=content-type content='text/html; charset=x'>\u{feff}y", "<script></script>\u{feff}"]);
+        let at = s.below(input.chars().count() + 1);
+        let cs: Vec<char> = input.chars().collect();
+        input = cs[..at].iter().collect::<String>() + m + &cs[at..].iter().collect::<String>();
+    }
     tc.input = input;
     let n = tc.input.chars().count();
     let cuts = chunks::gen_cuts(s, n);
